@@ -421,7 +421,11 @@ func (mr *msgReader) Read(p []byte) (n int, err error) {
 		p = p[:n]
 		mr.dict.write(p)
 	}
-	if errors.Is(err, io.EOF) || errors.Is(err, io.ErrUnexpectedEOF) && mr.fin && mr.flate {
+	// The message has only ended if the whole of its final frame has been read.
+	// An EOF before that comes from the transport, and must not be reported as
+	// the end of the message or the caller would take a truncated message for a
+	// complete one.
+	if mr.fin && mr.payloadLength == 0 && (errors.Is(err, io.EOF) || errors.Is(err, io.ErrUnexpectedEOF) && mr.flate) {
 		mr.putFlateReader()
 		return n, io.EOF
 	}
